@@ -23,7 +23,7 @@ func init() {
 			"(R4) the simplified test hash can only be switched on by the CLI decode commands; " +
 			"(R5) every cache location (states/outputs/index sub-store) is derived from that hash through ModuleHashes.Get of the module's own name; " +
 			"(R6) the one dropped error on the hash path (AncestorsOf) is on a key already validated.",
-		NotCovered:  "Collision resistance; that descendants and nothing else change (follows from R1's recursion plus R3 but is not separately proven). Known observation (not a violation of the statement as written): two inputs of the same kind swapped keep the identifier; store update policy/value type are not hashed.",
+		NotCovered:  "Collision resistance; that descendants and nothing else change (follows from R1's recursion plus R3 but is not separately proven). Open known finding D11: two inputs of the same kind swapped keep the identifier (rule hashModule/input-order, listed in known_findings.json). Store update policy/value type are not hashed (not listed by the statement).",
 		Assumptions: []string{"sha1 and bytes.Buffer are deterministic", "generated getters are field loads"},
 	})
 }
@@ -362,6 +362,46 @@ func runC06(p *core.Prog, r *core.Report) {
 		r.Pass("C06.R6", "hash-path/errors", fmt.Sprintf("%d error-returning repository calls on the hash path inspected", n))
 	})
 	r.Guard("C06.R1", "closure/AncestorsOf", "ancestor closure", func() { checkClosureFn(p, r, "C06.R1", "ModuleGraph.AncestorsOf", 1, false) })
+	r.Guard("C06.R1", "input-order", "the order of the inputs is part of the identity", func() {
+		// "ordered inputs": for each input, in slice order, the hash receives something that tells WHICH module a map or
+		// store input refers to (its identifier), not only its kind; otherwise two inputs of the same kind can be swapped
+		// — the entrypoint then receives its arguments in the other order — without the identifier changing.
+		iv := p.Func(pkgMani, "inputValue")
+		r.Touch(core.FuncName(iv))
+		for _, kind := range []string{"Module_Input_Map_", "Module_Input_Store_"} {
+			found, constant := false, true
+			core.Instrs(iv, func(in ssa.Instruction) {
+				ta, ok := in.(*ssa.TypeAssert)
+				if !ok || !ta.CommaOk || typeName(ta.AssertedType) != "*"+kind {
+					return
+				}
+				found = true
+				// the return reached on the success edge of this assertion
+				for _, ref := range *ta.Referrers() {
+					ex, ok := ref.(*ssa.Extract)
+					if !ok || ex.Index != 1 {
+						continue
+					}
+					for _, rr := range *ex.Referrers() {
+						ifi, ok := rr.(*ssa.If)
+						if !ok {
+							continue
+						}
+						b := ifi.Block().Succs[0]
+						if rt, ok := b.Instrs[len(b.Instrs)-1].(*ssa.Return); ok {
+							if _, isK := rt.Results[0].(*ssa.Const); !isK {
+								constant = false
+							}
+						}
+					}
+				}
+			})
+			if !found {
+				core.Undecide("inputValue: no case for %s", kind)
+			}
+			r.Check(!constant, "C06.R1", "hashModule/input-order/"+kind, "the value hashed for a "+strings.TrimSuffix(strings.TrimPrefix(kind, "Module_Input_"), "_")+" input identifies the module it refers to (e.g. that module's identifier), so that swapping two inputs of the same kind changes the identifier", "a constant is hashed for every input of this kind: out(a, b) and out(b, a) get the same identifier", p.Pos(iv.Pos()))
+		}
+	})
 	r.Guard("C06.R3", "reindex/offsets", "index fields follow their lists", func() {
 		fn := p.Func(pkgMani, "reindexAndMergePackage")
 		dest := fn.Params[1]
